@@ -196,6 +196,11 @@ def respOK (f : Fmt) (pos : Nat) (call : Call) (o : Resp) : Bool :=
   (match o.bodies with | [b] => shapeOK f.kind o.status b | _ => false) &&
   o.aborted && o.entered.all (· ≤ pos)
 
+/-- "abort the chain", on its own: the flag is set and no position after the failing one was entered
+    (what is left of the statement when the configured formatter is not one of the three and its body
+    cannot be encoded at all) -/
+def abortOK (pos : Nat) (o : Resp) : Bool := o.aborted && o.entered.all (· ≤ pos)
+
 /-- the C06 oracle on an observed response -/
 def specOK (opts : List Opt) (accept : Option Bytes) (pos : Nat) (call : Call) (o : Resp) : Bool :=
   (allowed opts accept).any fun f => respOK f pos call o
